@@ -88,7 +88,9 @@ struct Added {
     pending_polls: u64,
 }
 
-pub fn run_mgr(p: &MgrPlan, rep: &mut RunReport) {
+pub fn run_mgr(p: &MgrPlan, rep: &mut RunReport, focus: &str) {
+    // C11: the record must be in the session's shards; C01: without its file record a file cannot be downloaded
+    let (ca, cb) = if focus == "C01" { ("C01.a", "C01.a") } else { ("C11.a", "C11.b") };
     let dir = scratch_dir("m");
     let _g = crate::engines::session::ScratchGuard(dir.clone());
     let sdir = dir.join("session-shards");
@@ -172,12 +174,12 @@ pub fn run_mgr(p: &MgrPlan, rep: &mut RunReport) {
     let stalled = sched.is_stalled();
     let (picks, switches, overflow) = sched.stats();
     if stalled {
-        rep.violate("C11.a", "manager:callers-stalled", "concurrent callers of the shard manager all stayed pending (2000 consecutive idle picks)".into());
+        rep.violate(ca, "manager:callers-stalled", "concurrent callers of the shard manager all stayed pending (2000 consecutive idle picks)".into());
     }
     // the session's final flush, then what the directory holds
     let fin = rt0.block_on(mgr.flush());
     if let Err(e) = fin {
-        rep.violate("C11.a", "manager:final-flush-error", format!("{e}"));
+        rep.violate(ca, "manager:final-flush-error", format!("{e}"));
     }
     let mut on_disk = ModelShard::default();
     let mut n_shards = 0u64;
@@ -197,22 +199,23 @@ pub fn run_mgr(p: &MgrPlan, rep: &mut RunReport) {
                             on_disk.xorbs.entry(x.hash).or_insert(x);
                         }
                     },
-                    Err(er) => rep.violate("C11.a", "manager:shard-unparsable", format!("{name}: {er}")),
+                    Err(er) => rep.violate(ca, "manager:shard-unparsable", format!("{name}: {er}")),
                 }
             }
         }
     }
     let a = added.lock().unwrap();
     for e in &a.errors {
-        rep.violate("C11.a", "manager:op-error", e.clone());
+        rep.violate(ca, "manager:op-error", e.clone());
     }
     let by_hash: BTreeMap<H, &RefXorbRec> = models.iter().flat_map(|m| m.xorbs.values()).map(|x| (x.hash, x)).collect();
-    for (t, h) in &a.xorbs {
+    // (for C01 only the file records matter: a download needs the file's segment list, not the xorb's chunk list)
+    for (t, h) in a.xorbs.iter().filter(|_| focus != "C01") {
         match on_disk.xorbs.get(h) {
             Some(x) if Some(&x) == by_hash.get(h) => {},
-            Some(_) => rep.violate("C11.a", "manager:xorb-record-altered", format!("xorb {} added by caller {t} is listed with a different chunk list", ref_hex(h))),
+            Some(_) => rep.violate(ca, "manager:xorb-record-altered", format!("xorb {} added by caller {t} is listed with a different chunk list", ref_hex(h))),
             None => rep.violate(
-                "C11.a",
+                ca,
                 "manager:xorb-record-lost-under-concurrency",
                 format!("add_cas_block of xorb {} by caller {t} returned Ok, but no shard of the session directory lists it after the final flush ({n_shards} shards)", ref_hex(h)),
             ),
@@ -221,7 +224,7 @@ pub fn run_mgr(p: &MgrPlan, rep: &mut RunReport) {
     for (t, h) in &a.files {
         if !on_disk.files.contains_key(h) {
             rep.violate(
-                "C11.a",
+                ca,
                 "manager:file-record-lost-under-concurrency",
                 format!("add_file_reconstruction_info of file {} by caller {t} returned Ok, but no shard of the session directory holds it after the final flush ({n_shards} shards)", ref_hex(h)),
             );
@@ -234,12 +237,12 @@ pub fn run_mgr(p: &MgrPlan, rep: &mut RunReport) {
     let total_entries: usize = a.xorbs.iter().filter_map(|(_, h)| by_hash.get(h)).map(|x| x.chunks.len()).sum();
     let cap_may_apply = total_entries >= index_cap;
     rep.count("probe:manager_mt_runs_excluded_from_query_clause_by_index_cap", cap_may_apply as u64);
-    for (t, h) in a.xorbs.iter().filter(|_| !cap_may_apply) {
+    for (t, h) in a.xorbs.iter().filter(|_| !cap_may_apply && focus != "C01") {
         if let Some(c) = by_hash.get(h).and_then(|x| x.chunks.first()) {
             match rt0.block_on(mgr.chunk_hash_dedup_query(&[m_of(&c.0)])) {
                 Ok(Some(_)) => {},
-                Ok(None) => rep.violate("C11.b", "manager:chunk-not-found-after-concurrent-adds", format!("first chunk of xorb {} (caller {t}) is not found by the manager after the final flush", ref_hex(h))),
-                Err(e) => rep.violate("C11.a", "manager:query-error", format!("{e}")),
+                Ok(None) => rep.violate(cb, "manager:chunk-not-found-after-concurrent-adds", format!("first chunk of xorb {} (caller {t}) is not found by the manager after the final flush", ref_hex(h))),
+                Err(e) => rep.violate(ca, "manager:query-error", format!("{e}")),
             }
         }
     }
